@@ -298,6 +298,11 @@ func (fv *FV) applyContract(st *State, fc *FuncContract, key string, names []str
 	for _, ga := range fc.GhostEntry {
 		fv.ghostAssign(st, ga, env)
 	}
+	// the callee may allocate: objects it modifies may refer to objects it allocated
+	na := fv.fresh("alloc", "Int")
+	st.assume(fmt.Sprintf("(>= %s %s)", na, st.alloc))
+	allocBefore := st.alloc
+	st.alloc = na
 	// frame
 	if fc.HasMod {
 		fv.applyModifies(st, fc.Modifies, env)
@@ -306,9 +311,24 @@ func (fv *FV) applyContract(st *State, fc *FuncContract, key string, names []str
 		fv.havocAllHeaps(st)
 		fv.havocGhost(st)
 	}
-	na := fv.fresh("alloc", "Int")
-	st.assume(fmt.Sprintf("(>= %s %s)", na, st.alloc))
-	st.alloc = na
+	// tracked types: a callee allocates objects of a tracked type only if its contract says so
+	if tr := fv.trackedTypes(); len(tr) > 0 {
+		var names []string
+		for n := range tr {
+			names = append(names, n)
+		}
+		sortStrings(names)
+		for _, n := range names {
+			if fc.Allocates[n] {
+				if !fv.fc.Allocates[n] {
+					fv.nTouch++
+					fv.addObl(st, "frame", fmt.Sprintf("allocates:%s:callee#%d@%s", n, fv.nTouch, st.fr.fn.Name()), "false", "calls "+shortKey(key)+", which allocates objects of tracked type "+n+", without declaring it", nil)
+				}
+				continue
+			}
+			st.assume(fmt.Sprintf("(forall ((r Int)) (! (=> (and (> r %s) (<= r %s)) (not (= (rtype r) %d))) :pattern ((rtype r))))", allocBefore, na, tr[n]))
+		}
+	}
 	// results
 	var rs []Val
 	rn := resultNames(results)
